@@ -73,6 +73,7 @@ Menu == <<
   Ext("Query", Obj("Query", <<>>, <<Fld("p2", Named("Int"), <<>>, "")>>))                                       \* 44
 >>
 CONSTANT MenuIdx        \* the menu items that may be picked (the whole menu, or a focus on a few items with a larger MaxItems)
+CONSTANTS Slice, NSlices \* only the documents with (sum of the picked indices) % NSlices = Slice are printed for replay (all are model-checked)
 VARIABLES picked, done
 Init == picked = <<1>> /\ done = FALSE          \* Query type always present
 Pick == /\ ~done /\ Len(picked) < MaxItems
@@ -160,7 +161,9 @@ Build(doc) ==
      ELSE IF ~(q \in tnames /\ kindOf(q) = "object") \/ ~implOk \/ ~unionOk \/ ~posOk \/ (mut # "" /\ kindOf(mut) # "object") THEN [ok |-> FALSE, err |-> "SchemaError", schema |-> <<>>]
      ELSE [ok |-> TRUE, err |-> "", schema |-> [query |-> q, mutation |-> mut, subscription |-> sub, types |-> merged]]
 \* rn: what build_schema(ignore_extensions = TRUE) must give: the document without its extension items
-Emit == done => PrintT("BLD " \o ToJson([doc |-> Doc, picked |-> picked, r |-> Build(Doc), rn |-> Build(SelectSeq(Doc, LAMBDA x : x.it \notin {"ext", "schemaext"}))]))
+RECURSIVE SumSeq(_)
+SumSeq(q) == IF q = <<>> THEN 0 ELSE Head(q) + SumSeq(Tail(q))
+Emit == (done /\ SumSeq(picked) % NSlices = Slice) => PrintT("BLD " \o ToJson([doc |-> Doc, picked |-> picked, r |-> Build(Doc), rn |-> Build(SelectSeq(Doc, LAMBDA x : x.it \notin {"ext", "schemaext"}))]))
 \* R1: the result does not depend on the order of the items, up to the order extensions of one target are merged in
 Unordered(r) == IF r.ok THEN {r.schema.types[i].name : i \in 1..Len(r.schema.types)} ELSE {r.err}
 OrderFree == done => \A pos \in 1..Len(picked) :
